@@ -1,4 +1,5 @@
 import PppModel.Props.C02
+import PppModel.Lemmas.V2Stream
 
 /-!
 # C17 — v2 incomplete errors state exactly how many bytes are present and needed
@@ -100,5 +101,70 @@ example : V2.parse [0x0D, 0x0A, 0x0D, 0x0A, 0x00, 0x0D, 0x0A, 0x51, 0x55, 0x49, 
     0x21, 0x11, 0x00, 0x0C, 1, 2, 3] = .error (.partialHdr 3 12) := by decide
 
 example : V2.parse [0x0D, 0x0A, 0x0D] = .error (.incomplete 3) := by decide
+
+/-! ## Audit additions: the forward form and exact characterisations -/
+
+/-- **Forward form** (the quantifier of the property text: every accepted header, every number of
+bytes present). The first `n` bytes of an accepted header, `n` smaller than its length, give
+`Incomplete(n)` before the fixed part is complete and `Partial(n - 16, declared length)`
+afterwards. Re-export of `V2.prefix_incomplete_exact`. -/
+theorem truncated_exact {x : B} {h : V2.Header} (hp : V2.parse x = .ok h) (n : Nat)
+    (hn : n < h.header.length) :
+    V2.parse (x.take n) = .error (if n < 16 then .incomplete n
+      else .partialHdr (n - 16) (be16 (byteAt x 14) (byteAt x 15))) :=
+  V2.prefix_incomplete_exact hp n hn
+
+/-- **`Partial(a, b)` exactly.** The parser reports `Partial(a, b)` iff the signature and the two
+control bytes are those of a well-formed header, the declared length `b` is at least the family's
+address-block size, `a` is the number of payload bytes present and it is less than `b`. -/
+theorem partial_iff (x : B) (a b : Nat) :
+    V2.parse x = .error (.partialHdr a b) ↔
+      x.take 12 = Spec.V2.signature ∧ 16 ≤ x.length ∧
+      (∃ c f t, byteAt x 12 = Spec.V2.versionCommand c ∧ byteAt x 13 = Spec.V2.familyTransport f t ∧
+        Spec.V2.familySize f ≤ b) ∧
+      b = be16 (byteAt x 14) (byteAt x 15) ∧ a = x.length - 16 ∧ x.length < 16 + b := by
+  constructor
+  · intro h
+    obtain ⟨hg, v, c, f, t, hc, h1, h2, rfl, rfl⟩ := parse_partial h
+    obtain ⟨g1, g2⟩ := (gate_ok_iff x).mp hg
+    cases v
+    obtain ⟨c1, c2⟩ := (control_ok_iff _ _ _ _ _ _).mp hc
+    exact ⟨g1, g2, ⟨c, f, t, c1, c2, size_eq_spec f ▸ h1⟩, rfl, rfl, h2⟩
+  · rintro ⟨g1, g2, ⟨c, f, t, c1, c2, h1⟩, rfl, rfl, h2⟩
+    have hg : gate x = .ok () := (gate_ok_iff x).mpr ⟨g1, g2⟩
+    have hc : control (byteAt x 12) (byteAt x 13) = .ok (.two, c, f, t) :=
+      (control_ok_iff _ _ _ _ _ _).mpr ⟨c1, c2⟩
+    rw [parse_eq_body hg hc]
+    simp only [body, minLen, size_eq_spec]
+    rw [if_neg (by omega), if_pos h2]
+
+/-- **`Incomplete(n)` exactly** (the converse of `incomplete_exact` is `V2.gate_incomplete`). -/
+theorem incomplete_iff (x : B) (n : Nat) :
+    V2.parse x = .error (.incomplete n) ↔
+      n = x.length ∧ x.length < 16 ∧ x.take 12 <+: Spec.V2.signature := by
+  constructor
+  · exact incomplete_exact
+  · rintro ⟨rfl, h1, h2⟩
+    exact parse_of_gate_error (gate_incomplete h1 h2)
+
+/-- Non-vacuity: the header of the example above, accepted, and two of its truncations through
+`truncated_exact`; the right-hand sides of the two iffs on concrete inputs. -/
+private def v4 : B := [0x0D, 0x0A, 0x0D, 0x0A, 0x00, 0x0D, 0x0A, 0x51, 0x55, 0x49, 0x54, 0x0A,
+    0x21, 0x11, 0x00, 0x0C, 1, 2, 3, 4, 5, 6, 7, 8, 9, 10, 11, 12]
+
+private def v4H : V2.Header :=
+  { header := v4, version := .two, command := .proxy, protocol := .stream,
+    addresses := .ipv4 { srcAddr := ⟨1, 2, 3, 4⟩, srcPort := 2314, dstAddr := ⟨5, 6, 7, 8⟩, dstPort := 2828 } }
+
+example : V2.parse v4 = .ok v4H := by decide
+example : V2.parse (v4.take 19) = .error (.partialHdr 3 12) :=
+  truncated_exact (x := v4) (h := v4H) (by decide) 19 (by decide)
+example : V2.parse (v4.take 7) = .error (.incomplete 7) :=
+  truncated_exact (x := v4) (h := v4H) (by decide) 7 (by decide)
+example : V2.parse (v4.take 19) = .error (.partialHdr 3 12) :=
+  (partial_iff _ 3 12).mpr ⟨by decide, by decide, ⟨.proxy, .ipv4, .stream, by decide, by decide, by decide⟩,
+    by decide, by decide, by decide⟩
+example : V2.parse (v4.take 7) = .error (.incomplete 7) :=
+  (incomplete_iff _ 7).mpr ⟨by decide, by decide, by decide⟩
 
 end C17
